@@ -5,9 +5,9 @@ import os, re
 from k1 import Unit
 
 # Which variant of the model the real code is tied to:
-#   "as_written"  take_until.hpp before e46f32d: trigger_receiver::set_done / set_error destroy sourceOp_
+#   "as_written"  take_until.hpp before e46f32d: trigger_receiver::set_done destroys sourceOp_
 #                 (DESIGN.md section 8, finding 2)                                   (p_fixed = false)
-#   "fixed"       they destroy triggerOp_ -- the code of /repo now                   (p_fixed = true)
+#   "fixed"       it destroys triggerOp_ -- the code of /repo now                    (p_fixed = true)
 MODEL_VARIANT = "fixed"
 # (development / mutation tests only: VERIF_C13_MODEL_VARIANT overrides the constant)
 VARIANT = os.environ.get("VERIF_C13_MODEL_VARIANT") or MODEL_VARIANT
